@@ -318,7 +318,7 @@ def _max_chunk(job):
         _C.reads = _C.nbytes = 0
         r0 = resource.getrusage(resource.RUSAGE_SELF).ru_maxrss
         t0 = time.time()
-        signal.alarm(5)
+        signal.alarm(3)
         try:
             try:
                 cls.frombytes(p, **kw)
@@ -339,7 +339,7 @@ def _max_chunk(job):
         finally:
             signal.alarm(0)
         grown = (resource.getrusage(resource.RUSAGE_SELF).ru_maxrss - r0) // 1024
-        if grown > 256 and res not in ("HANG", "MEMORY"):
+        if grown > 48 and res not in ("HANG", "MEMORY"):
             res = "MEMORY peak-rss-grew-%dMB (%s)" % (grown, res)
         out.append((res, _C.reads, time.time() - t0, grown))
     return out
@@ -403,3 +403,116 @@ def geometry_docs():
         for box in (boxes if comp == 1 else boxes[:1] + boxes[3:]):
             out.append(("layer:%r:comp%d" % (box, comp), layer_doc(box, comp, d)))
     return out
+
+
+# ------------------------------------------------------------------ structured count maximiser: harvested elements
+def harvest_elements(paths, per_class=2, max_len=40000, extra_docs=()):
+    """(module, qualname, bytes): serialisations of the element objects found inside parsed fixtures - every class of
+    psd_tools.psd that occurs, INCLUDING the nested ones no registry lists (Pattern, VirtualMemoryArrayList,
+    VirtualMemoryArray, Annotation, LinkedLayer, FilterEffect, SliceV6, Subpath, ...), each a valid instance whose count
+    and length fields can then be maximised in place"""
+    _quiet()
+    import attr
+
+    from psd_tools.psd import PSD
+    from psd_tools.psd.base import BaseElement
+
+    got, seen_ids = {}, set()
+
+    def visit(o, depth):
+        if depth > 40 or id(o) in seen_ids or o is None or isinstance(o, (bytes, str, int, float, bool)):
+            return
+        seen_ids.add(id(o))
+        if isinstance(o, BaseElement) and type(o).__module__.startswith("psd_tools.psd"):
+            key = (type(o).__module__, type(o).__qualname__)
+            if len(got.get(key, ())) < 12 and hasattr(type(o), "frombytes"):
+                try:
+                    b = o.tobytes()
+                    if 0 < len(b) <= max_len and b not in got.get(key, []):
+                        got.setdefault(key, []).append(b)
+                except Exception:
+                    pass
+        if attr.has(type(o)):
+            for f in attr.fields(type(o)):
+                try:
+                    visit(getattr(o, f.name), depth + 1)
+                except Exception:
+                    pass
+        items = getattr(o, "_items", None)
+        if isinstance(items, dict):
+            for v in list(items.values()):
+                visit(v, depth + 1)
+        elif isinstance(items, (list, tuple)):
+            for v in items:
+                visit(v, depth + 1)
+        if isinstance(o, (list, tuple)):
+            for v in o:
+                visit(v, depth + 1)
+        elif isinstance(o, dict):
+            for v in o.values():
+                visit(v, depth + 1)
+
+    for b in extra_docs:
+        try:
+            seen_ids.clear()
+            doc = PSD.read(_REAL_BYTESIO(b))
+            visit(doc, 0)
+        except Exception:
+            continue
+    for path in paths:
+        try:
+            seen_ids.clear()        # ids are only unique among live objects
+            with open(path, "rb") as f:
+                doc = PSD.read(f)
+            visit(doc, 0)
+        except Exception:
+            continue
+    return sorted((m, q, b) for (m, q), bs in got.items() for b in sorted(bs, key=len)[:per_class])
+
+
+def structured_payloads(b, thorough):
+    """the valid serialisation, then a maximal / large count written over every offset of its head (counts and length
+    fields sit in the fixed part of an element) and over every aligned small-valued 4-byte field further on, and truncations"""
+    out = [b]
+    vals = [b"\xff\xff\xff\xff", b"\x00\x00\xff\xff"] + ([b"\x7f\xff\xff\xff", b"\xff\xff"] if thorough else [])
+    head = min(len(b), 160 if thorough else 96)
+    offs = list(range(head))
+    for o in range(head - head % 4, len(b) - 3, 4):     # later fields that look like counts (small big-endian values)
+        if b[o] == 0 and b[o + 1] == 0 and len(offs) < (600 if thorough else 260):
+            offs.append(o)
+    for o in offs:
+        for v in vals:
+            out.append(b[:o] + v + b[o + len(v):])
+    for cut in (len(b) - 1, len(b) - 3, len(b) // 2):
+        if cut > 0:
+            out.append(b[:cut])
+    return list(dict.fromkeys(out))
+
+
+def run_structured(harvest, thorough, workers=12):
+    """returns list of ((module, qualname), payloads, outcomes)"""
+    jobs = []
+    for m, q, b in harvest:
+        jobs.append((m, q, {}, structured_payloads(b, thorough)))
+    out = []
+    with ProcessPoolExecutor(max_workers=workers, mp_context=_fork(), initializer=_init_full) as ex:
+        futs = [(j, ex.submit(_max_chunk, j)) for j in jobs]
+        for j, f in futs:
+            try:
+                out.append(((j[0], j[1]), j[3], f.result(timeout=900)))
+            except BrokenProcessPool:
+                out.append(((j[0], j[1]), j[3], "CRASH (a child died)"))
+            except Exception as e:  # noqa
+                out.append(((j[0], j[1]), j[3], "WORKER-FAILED %r" % (e,)))
+    return out
+
+
+def patt_doc(num_channels=1, arrays=3):
+    """a 1x1 grayscale document with one 1x1 pattern in a global Patt block: `num_channels` declared, `arrays` stored"""
+    u32 = lambda n: struct.pack(">I", n)
+    vmal = struct.pack(">4I", 0, 0, 1, 1) + u32(num_channels) + u32(0) * arrays
+    pattern = u32(1) + u32(1) + struct.pack(">2h", 1, 1) + u32(0) + b"\x01a" + u32(3) + u32(len(vmal)) + vmal
+    patterns = u32(len(pattern)) + pattern + b"\0" * (-len(pattern) % 4)
+    block = b"8BIM" + b"Patt" + u32(len(patterns)) + patterns
+    lmi = u32(0) + u32(0) + block
+    return (b"8BPS" + struct.pack(">H6xHIIHH", 1, 1, 1, 1, 8, 1) + u32(0) + u32(0) + u32(len(lmi)) + lmi + b"\0\0\0")
